@@ -360,7 +360,16 @@ int main(int argc, char **argv)
 			char sum[400]; size_t i = 0;
 			for (; q[i] && q[i] != '\n' && i < sizeof(sum) - 1; i++) sum[i] = q[i];
 			sum[i] = 0;
-			printf("CRASH %d %d %s\n", WIFSIGNALED(st) ? WTERMSIG(st) : 0, WIFEXITED(st) ? WEXITSTATUS(st) : -1, sum);
+			/* first stack frame inside trx_if.c (where the real code was when the sanitizer stopped it) */
+			char loc[200]; loc[0] = 0;
+			char *f = strstr(q, "trx_if.c:");
+			if (f) {
+				char *b = f; while (b > q && b[-1] != '\n') b--;
+				char *in = strstr(b, " in "); if (in && in < f) b = in + 4;
+				for (i = 0; b[i] && b[i] != '\n' && i < sizeof(loc) - 1; i++) loc[i] = b[i];
+				loc[i] = 0;
+			}
+			printf("CRASH %d %d %s | %s\n", WIFSIGNALED(st) ? WTERMSIG(st) : 0, WIFEXITED(st) ? WEXITSTATUS(st) : -1, sum, loc);
 		}
 		fflush(stdout);
 	}
